@@ -129,6 +129,14 @@ func deSerializeMacaroon(urlSafeEncode string) (macaroon.Macaroon, error) {
 		return mac, err
 	}
 
-	err = mac.UnmarshalBinary(bin)
-	return mac, err
+	if err = mac.UnmarshalBinary(bin); err != nil {
+		return mac, err
+	}
+	// Only the serialisation that serializeMacaroon produces is a token: the decoders tolerate
+	// trailing bytes, line breaks, unused base64 bits and non-minimal length encodings, all of
+	// which would let an altered token through unnoticed.
+	if canonical, err := serializeMacaroon(mac); err != nil || canonical != urlSafeEncode {
+		return mac, errors.New("token is not in its canonical encoding")
+	}
+	return mac, nil
 }
